@@ -677,6 +677,8 @@ class Node:
 
         # Make group, add tags
         assert('/' not in self.name), f"node names can't contain '/' - HDF5 would read '{self.name}' as a path"
+        assert(len(self.name)>0 and '\x00' not in self.name), "node names can't be empty or contain NUL characters"
+        assert(self.name != 'metadatabundle'), "the name 'metadatabundle' is reserved"
         grp = group.create_group(self.name)
         grp.attrs.create("emd_group_type",self.__class__._emd_group_type)
         grp.attrs.create("python_class",self.__class__.__name__)
